@@ -19,6 +19,7 @@ def dispatch (prop : String) (args : List Nat) : String :=
   | "C03" => C03.handle args
   | "C16" => C16.handle args
   | "C01" => C01.handle args
+  | "C04" => C01.handle args
   | "C09" => C09.handle args
   | "C11" => C11.handle args
   | "C12" => C12.handle args
